@@ -79,8 +79,8 @@ def exec_inflight(s, ep, inp_connect, nxt):
     f2 = [f for f in frames if f not in f1]
     e1 = [e for e in evs if e == "connected"]
     e2 = [e for e in evs if e != "connected"]
-    o1 = {"frames": f1, "ev": e1, "dlv": 0, "dlv_other": 0, "cs": "NS", "merged": True}
-    o2 = {"frames": f2, "ev": e2, "dlv": len([d for d in dl if d["system"] == sysid]),
+    o1 = {"frames": f1, "ev": e1, "dlv": 0, "dlv_other": 0, "rep": 0, "cs": "NS", "merged": True}
+    o2 = {"frames": f2, "ev": e2, "rep": 0, "dlv": len([d for d in dl if d["system"] == sysid]),
           "dlv_other": len([d for d in dl if d["system"] != sysid]), "cs": ep.cs, "merged": True}
     return [{"inp": inp_connect, "obs": o1}, {"inp": nxt, "obs": o2}]
 
@@ -88,7 +88,7 @@ def exec_inflight(s, ep, inp_connect, nxt):
 def judge(wd, traces, label):
     f = wd / f"traces_{label}.json"
     slim = [{"id": t["id"], "mode": t["mode"],
-             "steps": [{"inp": st["inp"], "obs": {k: st["obs"][k] for k in ("frames", "ev", "dlv", "cs")}}
+             "steps": [{"inp": st["inp"], "obs": {k: st["obs"][k] for k in ("frames", "ev", "dlv", "rep", "cs")}}
                        for st in t["steps"]]} for t in traces]
     for t in slim:
         for st in t["steps"]:
@@ -128,7 +128,7 @@ def run(ctx: Ctx):
     tlc.require_ok(res, "E37Session")
     ctx.add_tlc(res, "E37 monitor: all histories, invariants + SelectedOnlyBySelect")
     edges = res.tagged("TR")
-    inits = [{"mode": m, "enabled": False, "cs": "NC", "openSel": False} for m in ("active", "passive")]
+    inits = [{"mode": m, "enabled": False, "cs": "NC", "openSel": False, "openData": False} for m in ("active", "passive")]
     g = graph.Graph(edges, inits)
     if len(g.inits) != 2 or len(edges) < 100:
         raise Machinery(f"unexpected monitor graph: {len(g.inits)} inits, {len(edges)} edges")
